@@ -40,9 +40,64 @@ DECIDING_COUNTERS = ["M-query.compute_scc", "M-query.is_reachable_dfs", "M-query
                      "M-query.find_exiting_and_exits", "M-query.find_headers_and_entries"]
 SHARD_TIMEOUT = {"quick": 900, "thorough": 7200}
 
+def _query_levels(check, case, scfg, ctx, done):
+    """After the stages: every query asked directly on the graph of every
+    region at every depth (sub-graphs whose edges leave the graph, whose head
+    is entered from two or more levels further out), under the contracts."""
+    import random as _r
+    from numba_scfg.core import transformations as T
+    from ..hier import levels
+
+    if not done:
+        return
+    rng = _r.Random(core.sha([case.get("g") or case.get("origin"), "levels"]))
+    n = 0
+    for reg, sc in levels(scfg):
+        if reg is None or len(sc.graph) > 40:
+            continue
+        n += 1
+        if n > 60:
+            break
+        names = list(sc.graph)
+        sc.compute_scc()
+        try:
+            head = sc.find_head()
+        except AssertionError:
+            head = None
+        subsets = [set(names), {names[0]}, {names[-1]}]
+        if head is not None:
+            subsets.append({head})
+        for _ in range(3):
+            subsets.append(set(rng.sample(names, rng.randint(1, len(names)))))
+        for sub in subsets:
+            try:
+                sc.find_headers_and_entries(set(sub))
+            except AssertionError:
+                pass
+            sc.find_exiting_and_exits(set(sub))
+        for a in names[:4]:
+            for b in names[:4]:
+                sc.is_reachable_dfs(a, b)
+        for f in (T._doms, T._post_doms):
+            try:
+                T._imm_doms(f(sc))
+            except (RuntimeError, ValueError):
+                pass
+        ctx.hit("direct.region_graphs_queried")
+        ctx.hit("direct.region_graphs_queried.depth_%d" % min(_depth(reg), 6))
+
+
+def _depth(reg):
+    d = 0
+    while reg is not None and getattr(reg, "kind", "meta") != "meta" and d < 50:
+        d += 1
+        reg = reg.parent_region
+    return d
+
+
 _pipeline = GraphCheck(
     "C13", oracles=set(), rule="", nontrivial=lambda f, c, t: f["regions"] > 0,
-    deciding=[], profile=("stage", "query"), with_real=True,
+    deciding=[], profile=("stage", "query"), with_real=True, per_case=_query_levels,
     classes=[(c, max(50, q // 4), max(500, t // 10), p) for c, q, t, p in GEN_CLASSES],
 )
 
